@@ -509,9 +509,10 @@ theorem relA (g : V) (W : Nat → Prop) (s t : State) (h : ResetEq s t)
             shapeS := ⟨hS.stack, hS.frames⟩, shapeT := ⟨hT.stack, hT.frames⟩,
             stack := hst, fnc := fun _ _ e => by cases e }
 
-/-- `liveEq`, and the stacks also agree on the slots `W` (all of them after `Clear`) -/
+/-- `liveEq`, the stacks also agree on the slots `W` (all of them after `Clear`/`SetBytecode`),
+    and the frame array has its Go size with the current frame inside -/
 def liveEqW (W : Nat → Prop) (s t : State) : Prop :=
-  liveEq s t ∧ ∀ i, W i → s.stack[i]! = t.stack[i]!
+  liveEq s t ∧ (∀ i, W i → s.stack[i]! = t.stack[i]!) ∧ (s.frames.size = frameSize ∧ s.curFrame < frameSize)
 
 theorem frames_modify_zero (a : Array Frame) (f : Frame → Frame) (h : 0 < a.size) :
     (a.modify 0 f)[0]! = f a[0]! := by
@@ -528,7 +529,7 @@ theorem relB (c : Nat) (fr : Option (List Addr)) (W : Nat → Prop) (s t : State
   have hft : 0 < t.frames.size := by rw [hT.frames]; decide
   simp only [prologueB, initCurrentFrame, exec_bind, exec_getS, exec_fnCell, exec_modS, ← h.mainFn, ← h.heap,
     ← h.codes, hc, SameEnd, true_and]
-  refine ⟨?_, fun i hi => h.stack i hi⟩
+  refine ⟨?_, fun i hi => h.stack i hi, ⟨by simp [hS.frames], (by decide : (0 : Nat) < frameSize)⟩⟩
   exact {
     heap := rfl, codes := rfl, consts := h.consts, mainFn := rfl, numModules := h.numModules,
     globals := h.globals, modules := by simp [h.modules, h.numModules], noPanic := h.noPanic, err := h.err,
@@ -559,7 +560,7 @@ theorem prologue_live_core (g : V) (args : List V) (W : Nat → Prop) (s t : Sta
     refine (?_ : SameEnd (liveEqW (fun j => W j ∨ j < (s1.codes[c]!).numLocals)) _ _).mono ?_
     rotate_left
     · intro s' t' h'
-      exact ⟨h'.1, fun i hi => h'.2 i (Or.inl hi)⟩
+      exact ⟨h'.1, fun i hi => h'.2.1 i (Or.inl hi), h'.2.2⟩
     refine relB c fr _ s2 t2 h2 ?_
     intro j hj
     have hk := (keeps_initLocals (codes := s1.codes) (consts := s1.consts) (mainFn := s1.mainFn)
